@@ -505,3 +505,32 @@ Qed.
 Lemma sensitive_set :
   go_sensitive_headers = [bs "Authorization"; bs "Www-Authenticate"; bs "Cookie"; bs "Cookie2"].
 Proof. reflexivity. Qed.
+
+(* a policy that faults on a hop permits nothing on that hop: whatever stands before or after it in
+   the list, the hop is not taken *)
+Lemma fault_is_no_permission ps k t via :
+  In (PFault k) ps -> length via = k -> all_permit ps t via = false.
+Proof.
+  intros Hin Hk. destruct (all_permit ps t via) eqn:E; [|reflexivity].
+  apply composition_is_conjunction with (p := PFault k) in E; [|assumption].
+  cbn [permits] in E. subst k. now rewrite Nat.eqb_refl in E.
+Qed.
+
+(* ... so a chain under such a list sends at most k requests *)
+Lemma fault_bounds_chain ps init hs targets k :
+  In (PFault k) ps -> 1 <= k -> length (fst (run_chain ps init hs targets)) <= k.
+Proof.
+  intros Hin Hk. unfold run_chain.
+  assert (H : forall targets via strip, length via <= k ->
+             length via + length (fst (follow ps init hs via strip targets)) <= k).
+  { induction targets0 as [|t rest IH]; intros via strip Hv; cbn [follow].
+    - cbn. lia.
+    - destruct (all_permit ps t via) eqn:Hp; [|cbn; lia].
+      assert (Hne : length via <> k).
+      { intros He. rewrite (fault_is_no_permission ps k t via Hin He) in Hp. discriminate. }
+      specialize (IH (via ++ [t]) (strip || negb (bytes_eqb init t) && negb (should_copy init t))).
+      destruct (follow ps init hs (via ++ [t]) _ rest) as [l e]. cbn [fst length] in *.
+      rewrite app_length in IH. cbn [length] in IH. lia. }
+  specialize (H targets [init] false). cbn [length] in H.
+  destruct (follow ps init hs [init] false targets) as [l e]. cbn [fst length] in *. lia.
+Qed.
